@@ -2,11 +2,15 @@
    Fixed, integer, Guarded; laws in Proofs/Zlike.v): a transferred ballot's value is credited exactly once
    (to a candidate or to the non-transferable pile), a re-weighted ballot never gains value and loses less
    than two units, the re-weighted ballots of a candidate are worth at most the surplus; a Meek/Warren
-   distribution conserves votes exactly.  The lifting of these steps to every action of every count is
-   decided by correspondence (values scope) + the conservation oracle: _partial. *)
+   distribution conserves votes exactly.
+   WHOLE RUNS (wigm, wigm-prf, wigm-prf-batch, scotland; Fixed, integer and Guarded with guard 0): in every state a count
+   reaches without crashing, and in every snapshot it has recorded, tallies + non-transferable never exceed the
+   ballots cast (C02_no_votes_created_whole_run; invariant and Hoare proof in Proofs/Conserve.v, ConserveCount.v).
+   cfer, mpls, the Meek family, QPQ and rational arithmetic: correspondence (values scope) + conservation oracle (_partial). *)
 From Coq Require Import ZArith List Bool String.
-From Droop Require Import Model.KernelBase Model.Arith Model.State Model.Prims Model.RulesMeek
-  Proofs.Zlike Proofs.Gregory Proofs.MeekDist.
+From Droop Require Import Model.KernelBase Model.Arith Model.Prelude Model.State Model.Prims Model.RulesMeek Model.Election
+  Proofs.Zlike Proofs.Gregory Proofs.MeekDist Proofs.Conserve Proofs.ConserveCount.
+From Coq Require Import PArith Lia.
 Import ListNotations.
 Open Scope Z_scope.
 
@@ -48,3 +52,37 @@ Print Assumptions C02_meek_distribution_exact_partial.
 (* the laws are those of the arithmetics the rules run on *)
 Example C02_laws_inhabited : (exists z : zlike (Fixed 4 4) (10 ^ 4), True) /\ (exists z : zlike (Guarded 9 9 9 0) (10 ^ 18), True).
 Proof. split; [exists (zlike_fixed 4 4 ltac:(discriminate))|exists (zlike_guarded 9 9 9 0 ltac:(discriminate) ltac:(discriminate))]; exact I. Qed.
+
+(* ---- whole runs ---- *)
+(* [total] = sum of the raw tallies of all candidates + raw non-transferable; [snap_ok B a]: the votes total and the
+   non-transferable figure recorded in action a sum to at most B; [ballot_total pr] = number of ballot papers (sum of the
+   multipliers of the non-empty ballots); raw units are 10^-p votes, S = 10^p *)
+Theorem C02_no_votes_created_whole_run : forall A S (ZL : zlike A S) cfg,
+  cf_method cfg = MWigm -> exact A = false -> 0 <= cf_nballots cfg -> 0 <= cf_nseats cfg ->
+  forall r pr fuel s k, greg_rule r -> wf_profile pr ->
+  exec (@crashed A) fuel (count_cmd A cfg r) (init_state A cfg pr) = Some (s, k) -> k <> Abort ->
+  (total A S ZL s <= S * ballot_total pr) /\
+  (Forall (snap_ok A S ZL (S * ballot_total pr)) (actions s)) /\
+  (forall c, In c (cands s) -> 0 <= raw ZL (cvote c)).
+Proof. exact count_no_votes_created. Qed.
+Print Assumptions C02_no_votes_created_whole_run.
+
+(* the hypotheses are satisfiable: a wigm-prf count of a well-formed profile under Fixed(4) ends normally *)
+Definition c02_profile : profile :=
+  mkProfile 2 6 [mkPcand 1 1 1 "A" "1" false false; mkPcand 2 2 2 "B" "2" false false; mkPcand 3 3 3 "C" "3" false true]
+            [(3, [1; 2]); (2, [2]); (1, [3; 2])] [].
+Example C02_whole_run_nonvacuous :
+  wf_profile c02_profile /\ greg_rule RWigmPrf /\ exact (Fixed 4 4) = false /\ ballot_total c02_profile = 6 /\
+  match exec (@crashed _) (2 ^ 10)%positive (count_cmd (Fixed 4 4) (mkConfig "wigm-prf" MWigm 2 6 false false false false 0) RWigmPrf)
+             (init_state (Fixed 4 4) (mkConfig "wigm-prf" MWigm 2 6 false false false false 0) c02_profile) with
+  | Some (_, Next) => True | _ => False end.
+Proof.
+  split; [|split; [right; left; reflexivity|split; [reflexivity|split; [reflexivity|vm_compute; exact I]]]].
+  split; [repeat constructor; cbn; intuition (try discriminate; try lia)|].
+  intros m r H. cbn in H. destruct H as [H|[H|[H|[]]]]; inversion H; subst; (split; [lia|]);
+    intros c Hc; cbn in Hc;
+    repeat (destruct Hc as [<-|Hc];
+            [first [exists (mkPcand 1 1 1 "A" "1" false false); split; [cbn; tauto|split; reflexivity]
+                   |exists (mkPcand 2 2 2 "B" "2" false false); split; [cbn; tauto|split; reflexivity]
+                   |exists (mkPcand 3 3 3 "C" "3" false true); split; [cbn; tauto|split; reflexivity]]|]); contradiction.
+Qed.
